@@ -209,7 +209,7 @@ end RtenVerif.InPlace
 
 /-! ## T3: in-place layout operators keep the row-major element sequence -/
 namespace RtenVerif.Layout
-open RtenVerif.Arr RtenVerif.Overlap
+open RtenVerif.Arr RtenVerif.Overlap RtenVerif.Layout.Seq
 
 /-- **T3a.** `reshape_in` (Reshape / Flatten in place): for a contiguous owned tensor the layout
 is swapped over the same buffer, otherwise the elements are first copied out in row-major order;
